@@ -11,5 +11,6 @@ INVARIANT InvAsCodedUnion
 INVARIANT InvAsCodedDeviation
 INVARIANT InvJarLaw
 INVARIANT InvTable
+INVARIANT InvPre
 INVARIANT Emit
 CHECK_DEADLOCK FALSE
